@@ -1,5 +1,6 @@
 import Gimli.Lemmas.ReaderKinds
 import Gimli.Lemmas.ReaderViews
+import Gimli.Lemmas.ReaderNoPanic
 import Gimli.Lemmas.Leb
 import Gimli.Model.Utf8
 /-!
@@ -68,6 +69,14 @@ theorem subrange_asserts_unreachable (n : Nat) (c : Cur) (w : String) :
   rw [Shared.truncate_eq, Shared.skip_eq, Shared.split_eq, Shared.readSlice_eq]
   unfold Slice.truncate Slice.skip Slice.split Slice.readSlice Slice.readSliceRaw M.bind M.pure
   by_cases h : c.len < n <;> simp [h]
+
+/-- **Along every history no operation on the shared-buffer reader panics**, API misuse apart
+(`read_uint(n)` with `n > 8`, documented; `offset_from` with a base the reader does not lie in,
+a `debug_assert!`): so none of `SubRange`'s `assert!`s, which guard its pointer arithmetic, fires,
+whatever the history before (`st` is arbitrary) and whatever the arguments. -/
+theorem subrange_hist_no_panic (st : St Cur) (op : Op) (h : Op.misuse m op = false) (w : String) :
+    (step sharedImpl m e valid lossy st op).1.res ≠ .panic w :=
+  step_no_panic m e valid lossy st op h w
 
 /-- The raw-pointer arithmetic of `SubRange` computes exactly the windows that safe slicing
 (`&s[..n]`, `&s[n..]`) computes, for in-range and out-of-range arguments. -/
